@@ -22,7 +22,7 @@ from vlib import Check, Build, log
 PID = "C10"
 
 VALS = ["foo", "bar", "baz", "qux"]          # pool of the random generator
-EXTRA = ["quux", "corge"]                     # only used by the exhaustive enumeration          # functions, variables, constants share these names
+EXTRA = ["quux", "corge", "grault", "garply"]                     # only used by the exhaustive enumeration          # functions, variables, constants share these names
 TYPES = ["Foo", "Bar"]
 NAME_ID = {n: i + 1 for i, n in enumerate(VALS + TYPES + EXTRA)}
 KINDS = {"f": "Funktion", "v": "Variable", "c": "Konstante", "t": "Typ"}
@@ -1056,6 +1056,126 @@ def exhaustive_cases(perms):
     return cases
 
 
+def gen_dircycle_case(rng, cid):
+    """an import cycle of length 1..4 whose closing edge is a directory import (plain or rekursiv): the module that is
+    still being parsed lies in the imported directory.  Length 1 = a module importing its own directory."""
+    L = rng.choice([1, 2, 2, 3, 3, 4])
+    through_root = rng.random() < 0.3
+    names = ["a", "b", "c", "e"]
+    nodes = ["p/d%d/%s" % (i + 1, names[i]) for i in range(L)]
+    root = "r"
+    if through_root:
+        root = "p/d1/r"
+        nodes[0] = root
+    mods = {}
+    pool = rng.sample(VALS, 4) + rng.sample(VALS, 4)
+    for i, nd in enumerate(nodes):
+        mods[nd] = [("D", VALS[i], "v", True)]
+    if rng.random() < 0.5:
+        mods["p/d1/s"] = [("D", "qux" if L < 4 else "Foo", "v" if L < 4 else "t", True)]      # a sibling in the imported directory
+    recursive = rng.random() < 0.5
+    target_dir = "p" if (recursive and rng.random() < 0.5) else "p/d1"
+    closing = ("I", target_dir, ("D", recursive))
+    for i, nd in enumerate(nodes):
+        if i + 1 < L:
+            nxt = nodes[i + 1]
+            mods[nd].insert(0, ("I", nxt, ("W",) if rng.random() < 0.5 else ("N", [VALS[i + 1]])))
+    last = nodes[-1]
+    pos = rng.randint(0, len(mods[last]))
+    mods[last].insert(pos, closing)
+    if not through_root:
+        mods["r"] = [("M", 1), ("I", nodes[0], ("W",)), ("M", 2)]
+    else:
+        mods[root] = [("M", 1)] + mods[root] + [("M", 2)]
+    return dict(id=cid, root=root, mods=mods, shape="dircycle", dircycle=(L, recursive, target_dir, through_root))
+
+
+def exhaustive_dir_cases(full):
+    """small graphs with directory imports: the modules r, d/a, d/b; every module imports a subset of
+    {r, d/a, d/b (whole module), the directory d}.  quick: at most one import statement in d/a and d/b and two in r;
+    thorough: every subset, directory imports alternately plain and rekursiv"""
+    names = {"r": ("foo", "bar"), "d/a": ("baz", "qux"), "d/b": ("quux", "corge")}
+    nodes = ["r", "d/a", "d/b"]
+    opts = ["r", "d/a", "d/b", "DIR"]
+
+    def subsets(maxn):
+        out = []
+        for k in range(0, maxn + 1):
+            out += list(itertools.combinations(opts, k))
+        return out
+    cases = []
+    n = 0
+    for sr in subsets(4 if full else 2):
+        for sa in subsets(4 if full else 1):
+            for sb in subsets(4 if full else 1):
+                if "DIR" not in sr + sa + sb:
+                    continue            # graphs without a directory import are enumerated by exhaustive_cases
+                n += 1
+                mods = {}
+                for x, sel in zip(nodes, (sr, sa, sb)):
+                    vn, fn = names[x]
+                    st = [("I", "d", ("D", (n + len(sel)) % 2 == 1)) if t == "DIR" else ("I", t, ("W",)) for t in sel]
+                    body = [("D", vn, "v", True), ("F", fn, True, [])]
+                    if x == "r":
+                        st2 = [("M", 1)]
+                        for k, im in enumerate(st):
+                            st2 += [im, ("M", 2 + k)]
+                        st = st2 + body
+                    else:
+                        st = st + body + [("M", 500)]
+                    mods[x] = st
+                cases.append(dict(id="ed%d" % n, root="r", mods=mods, shape="exhaustive_dir"))
+    return cases
+
+
+def exhaustive4_cases():
+    """the root imports x only; every import graph over the imported modules x, c, b (6 possible edges, no self-imports) with
+    every order of the import statements: the init order of one IterateModuleImports walk below a non-main module"""
+    names = {"r": ("foo", "bar"), "x": ("baz", "qux"), "c": ("quux", "corge"), "b": ("grault", "garply")}
+    inner = ["x", "c", "b"]
+    pairs = [(u, v) for u in inner for v in inner if u != v]
+    cases = []
+    n = 0
+    for bits in range(64):
+        edges = {u: [] for u in inner}
+        for i, (u, v) in enumerate(pairs):
+            if bits >> i & 1:
+                edges[u].append(v)
+        for combo in itertools.product(*[list(itertools.permutations(edges[u])) for u in inner]):
+            n += 1
+            mods = {"r": [("M", 1), ("I", "x", ("W",)), ("M", 2), ("D", "foo", "v", True), ("F", "bar", True, [])]}
+            for i, u in enumerate(inner):
+                vn, fn = names[u]
+                mods[u] = [("I", t, ("N", [names[t][0]])) for t in combo[i]] + [("D", vn, "v", True), ("F", fn, True, [("U", vn, "v")])]
+            cases.append(dict(id="ef%d" % n, root="r", mods=mods, shape="exhaustive4"))
+    return cases
+
+
+def gen_shared_dep_case(rng, cid):
+    """an imported module x imports c first and later b (a following statement or a later file of a directory import),
+    while c (directly or through d) imports b as well"""
+    deep = rng.random() < 0.4
+    via_dir = rng.random() < 0.3
+    mods = {}
+    if via_dir:
+        # sub/f < sub/g in walk order: f depends on g
+        mods["sub/f"] = [("I", "sub/g", ("N", ["bar"])), ("D", "foo", "v", True)]
+        mods["sub/g"] = [("D", "bar", "v", True)]
+        mods["x"] = [("I", "sub", ("D", rng.random() < 0.5)), ("D", "baz", "v", True)]
+    else:
+        mods["b"] = [("D", "bar", "v", True)]
+        if deep:
+            mods["d"] = [("I", "b", ("N", ["bar"])), ("D", "qux", "v", True)]
+            mods["c"] = [("I", "d", ("N", ["qux"])), ("D", "foo", "v", True)]
+        else:
+            mods["c"] = [("I", "b", ("N", ["bar"])), ("D", "foo", "v", True)]
+        mods["x"] = [("I", "c", ("N", ["foo"])), ("I", "b", ("N", ["bar"])), ("D", "baz", "v", True)]
+        if rng.random() < 0.3:
+            mods["x"].insert(1, ("M", 600))
+    mods["r"] = [("M", 1), ("I", "x", ("W",)), ("M", 2), ("U", "baz", "v")]
+    return dict(id=cid, root="r", mods=mods, shape="shared_dep")
+
+
 def stmt_to_json(s):
     if s[0] == "I":
         return ["I", s[1], list(s[2]) if s[2][0] != "N" else ["N", list(s[2][1])]]
@@ -1124,7 +1244,7 @@ def evaluate(env, cases, sink, cyc_sample=7):
         macc = mlines[c["id"]].split(" out=", 1)[1] != "none"
         cyc = has_cycle(static_graph(c), c["root"])
         # cyclic graphs are also handed to kddp (all random ones, a sample of the enumerated ones): no executable may come out
-        if acc or macc or (cyc and c["shape"] != "exhaustive3") or (cyc and int(c["id"][2:]) % cyc_sample == 0):
+        if acc or macc or (cyc and not c["shape"].startswith("exhaustive")) or (cyc and int(c["id"][2:]) % cyc_sample == 0):
             todo.append(c)
     bres = dict(zip([c["id"] for c in todo], vlib.pmap(lambda c: run_backend(b, c), todo)))
     # flattened module names of all compiled cases in one model call
@@ -1237,13 +1357,14 @@ def main():
     n_random = int(os.environ.get("C10_N", 110 if ck.quick else 2200))
     menu = [dict(), dict(), dict(dirs=True), dict(dirs=True), dict(overlap=True), dict(repeat=True), dict(graph="diamond"), dict(graph="diamond", overlap=True),
             dict(cycle=1), dict(cycle=2), dict(cycle=3), dict(cycle=4), dict(badname=True), dict(badname=True, overlap=True),
-            dict(nested=True), dict(nested=True), dict(missing=True), dict(collide=True), dict(graph="chain"), dict(graph="fan", repeat=True)]
+            dict(nested=True), dict(nested=True), dict(missing=True), dict(collide=True), dict(graph="chain"), dict(graph="fan", repeat=True),
+            dict(dircycle=True), dict(dircycle=True), dict(shared_dep=True)]
     if os.environ.get("C10_ONLY"):
         menu = [m for m in menu if os.environ["C10_ONLY"] in m]
     for i in range(n_random):
         opts = dict(menu[i % len(menu)])
-        if opts.get("nested"):
-            c = gen_nested_case(rng, "g%d" % i)
+        if opts.get("nested") or opts.get("dircycle") or opts.get("shared_dep"):
+            c = gen_nested_case(rng, "g%d" % i) if opts.get("nested") else gen_dircycle_case(rng, "g%d" % i) if opts.get("dircycle") else gen_shared_dep_case(rng, "g%d" % i)
             c["opts"] = opts
             c["probe"] = False
             cases.append(c)
@@ -1254,7 +1375,7 @@ def main():
         c["probe"] = probe
         add_root_uses(rng, c, probe)
         cases.append(c)
-    ex = [] if os.environ.get("C10_NOEX") else exhaustive_cases(perms=not ck.quick)
+    ex = [] if os.environ.get("C10_NOEX") else exhaustive_cases(perms=not ck.quick) + exhaustive_dir_cases(full=not ck.quick) + exhaustive4_cases()
     for c in ex:
         add_root_uses(rng, c, False)
     cases += ex
@@ -1315,7 +1436,7 @@ def main():
         log("[note] %d model/implementation disagreements accompany the violations; first: %s: %s" % (n_mism, cid, "; ".join(mism[cid])[:600]))
     ck.cov.update(dict(
         graphs=len(cases), corpus_graphs=n_corpus, random_graphs=n_random, exhaustive_graphs=len(ex), shapes=shapes, stats=stats,
-        exhaustive="all 512 import graphs over 3 modules (9 possible edges incl. self-imports)%s: frontend + model on all, kddp + executable on every accepted one and a sample of the cyclic ones" % ("" if ck.quick else ", every order of the import statements (4096 programs)"),
+        exhaustive="all 512 import graphs over 3 modules (9 possible edges incl. self-imports)%s; all graphs over r, d/a, d/b in which every module imports a subset of {r, d/a, d/b, the directory d} and at least one directory import occurs (%s); all 64 import graphs over three imported modules below a root that imports the first one, every order of the import statements: frontend + model on all, kddp + executable on every accepted one and a sample of the cyclic ones" % ("" if ck.quick else ", every order of the import statements (4096 programs)", "at most 2/1/1 import statements" if ck.quick else "every subset, plain and rekursiv alternating"),
         rule="a case is one module graph written to disk (2..7 modules); non-trivial = at least two modules reachable from the root; distinct by the complete module contents",
         model_mismatches=n_mism))
     for c in cases[n_corpus:n_corpus + 2] + cases[-1:]:
